@@ -1,7 +1,7 @@
 (* Extraction of the executable models. ExtrOcamlBasic only: bool, option, unit, list, prod,
    sumbool map to OCaml's own types; N / Z / positive / nat stay inductive. No Extract Constant. *)
 From Coq Require Import Extraction ExtrOcamlBasic.
-From Tpl Require Import Base.Runes Html.Scan Html.Code Html.Tree Html.Pipeline Exp.Lex Exp.Parse Exp.Eval Html.Exec Html.Manager Sys.Reload Sys.ReloadConc Sys.Xtpl Sys.FsWalk.
+From Tpl Require Import Base.Runes Html.Scan Html.Code Html.Tree Html.Pipeline Exp.Lex Exp.Parse Exp.Eval Html.Exec Html.Manager Sys.Reload Sys.ReloadConc Sys.Xtpl Sys.XtplCat Sys.FsWalk.
 Extraction Language OCaml.
 Set Extraction KeepSingleton.
-Extraction "model.ml" Runes.pos_after Pipeline.scan_html Pipeline.attr_ctoks Pipeline.load Code.cscan Tree.flatten Lex.lex Parse.parse_code Eval.eval_text Eval.sget Eval.get_value Exec.execute Exec.escape Manager.add_files Manager.run_history Manager.mk_mgr Reload.new_render Reload.write_content_type ReloadConc.crun ReloadConc.conc_init Xtpl.extract_node Xtpl.extract_expr FsWalk.parse_fs.
+Extraction "model.ml" Runes.pos_after Pipeline.scan_html Pipeline.attr_ctoks Pipeline.load Code.cscan Tree.flatten Lex.lex Parse.parse_code Eval.eval_text Eval.sget Eval.get_value Exec.execute Exec.escape Manager.add_files Manager.run_history Manager.mk_mgr Reload.new_render Reload.write_content_type ReloadConc.crun ReloadConc.conc_init Xtpl.extract_node Xtpl.extract_expr XtplCat.catalogue FsWalk.parse_fs.
